@@ -261,3 +261,23 @@ pub fn length_sweep() -> Vec<Content> {
     }
     v
 }
+
+/// Long strings made of two-byte characters at every byte alignment (a decoder working in
+/// fixed-size blocks would split a character).
+pub fn multibyte_alignment() -> Vec<Content> {
+    let mut v = Vec::new();
+    for e in [End::Little, End::Big] {
+        for shift in 0..4usize {
+            for reps in [31usize, 32, 63, 64, 127, 128, 200] {
+                let s: String = "a".repeat(shift) + &"漢字".repeat(reps);
+                let mut c = Content::new(e);
+                c.data = vec![0; 12];
+                c.strings.insert(0, s.clone());
+                c.cstrings.insert(4, format!("c{}", s));
+                c.labels.insert(8, vec![format!("L{}", s)]);
+                v.push(c);
+            }
+        }
+    }
+    v
+}
